@@ -64,27 +64,34 @@ Definition norm_attr (a : attr) : list Z :=
 
 Definition expect_attr (a : attr) : etok := (TAttribute, Some (norm_attr a), Some (a_name a), Some (attr_value a)).
 
-(* DOCTYPE body: plain bytes, double-quoted literals (may contain '>' '[' ']'), internal subsets
-   '[' ... ']' whose content may contain '>' and double-quoted literals *)
-Inductive dinner := DIChar (c : Z) | DIStr (s : list Z).
-Inductive dpiece := DChar (c : Z) | DStr (s : list Z) | DSub (inner : list dinner).
+(* DOCTYPE body: plain bytes, double- and single-quoted literals (which may contain '>' '[' ']' and the
+   other quote), internal subsets '[' ... ']' whose content may contain '>' and such literals *)
+Inductive dinner := DIChar (c : Z) | DIStr (s : list Z) | DIStrS (s : list Z).
+Inductive dpiece := DChar (c : Z) | DStr (s : list Z) | DStrS (s : list Z) | DSub (inner : list dinner).
 
-Definition str_ok (s : list Z) : Prop := Forall (fun c => c <> 34 /\ c <> 0) s.
+(* the content of a literal quoted by q *)
+Definition lit_ok (q : Z) (s : list Z) : Prop := Forall (fun c => c <> q /\ c <> 0) s.
 Definition dinner_ok (p : dinner) : Prop :=
-  match p with DIChar c => c <> 34 /\ c <> 93 /\ c <> 0 | DIStr s => str_ok s end.
+  match p with
+  | DIChar c => c <> 34 /\ c <> 39 /\ c <> 93 /\ c <> 0
+  | DIStr s => lit_ok 34 s
+  | DIStrS s => lit_ok 39 s
+  end.
 Definition dpiece_ok (p : dpiece) : Prop :=
   match p with
-  | DChar c => c <> 34 /\ c <> 91 /\ c <> 93 /\ c <> 62 /\ c <> 0
-  | DStr s => str_ok s
+  | DChar c => c <> 34 /\ c <> 39 /\ c <> 91 /\ c <> 93 /\ c <> 62 /\ c <> 0
+  | DStr s => lit_ok 34 s
+  | DStrS s => lit_ok 39 s
   | DSub inner => Forall dinner_ok inner
   end.
 
 Definition render_dinner (p : dinner) : list Z :=
-  match p with DIChar c => [c] | DIStr s => [34] ++ s ++ [34] end.
+  match p with DIChar c => [c] | DIStr s => [34] ++ s ++ [34] | DIStrS s => [39] ++ s ++ [39] end.
 Definition render_dpiece (p : dpiece) : list Z :=
   match p with
   | DChar c => [c]
   | DStr s => [34] ++ s ++ [34]
+  | DStrS s => [39] ++ s ++ [39]
   | DSub inner => [91] ++ concat (map render_dinner inner) ++ [93]
   end.
 Definition render_dt (ps : list dpiece) : list Z := concat (map render_dpiece ps).
@@ -349,9 +356,9 @@ Proof.
 Qed.
 
 (* ---- DOCTYPE --------------------------------------------------------------------------------------------------------------- *)
-(* x is moved over without changing the flags (not in a string, inBrackets = inB) *)
+(* x is moved over without changing the flags (not in a literal, inBrackets = inB) *)
 Definition dt_skip (inB : bool) (x : list Z) : Prop :=
-  forall r, scan_doctype false inB (x ++ r) = (rr <- scan_doctype false inB r ;; Some (len x + fst rr, snd rr)).
+  forall r, scan_doctype 0 inB (x ++ r) = (rr <- scan_doctype 0 inB r ;; Some (len x + fst rr, snd rr)).
 
 Lemma bind_shift (o : option (Z * bool)) a b :
   (r <- (rr <- o ;; Some (a + fst rr, snd rr)) ;; Some (b + fst r, snd r)) = (rr <- o ;; Some (b + a + fst rr, snd rr)).
@@ -359,7 +366,7 @@ Proof. destruct o as [[n f]|]; cbn [option_bind fst snd]; [|reflexivity]. do 2 f
 
 Lemma dt_skip_nil inB : dt_skip inB [].
 Proof.
-  intros r. cbn [app]. destruct (scan_doctype false inB r) as [[n f]|]; cbn [option_bind fst snd]; [|reflexivity].
+  intros r. cbn [app]. destruct (scan_doctype 0 inB r) as [[n f]|]; cbn [option_bind fst snd]; [|reflexivity].
   change (len (@nil Z)) with 0. do 2 f_equal.
 Qed.
 
@@ -374,82 +381,93 @@ Proof.
   apply dt_skip_app; assumption.
 Qed.
 
-(* inside a double-quoted literal everything but the closing quote and NUL is moved over *)
-Lemma scan_dt_str inB s r : str_ok s ->
-  scan_doctype true inB (s ++ 34 :: r) = (rr <- scan_doctype false inB r ;; Some (len s + 1 + fst rr, snd rr)).
+(* inside a literal opened by q everything but q and NUL is moved over *)
+Lemma scan_dt_lit q inB s r : q <> 0 -> lit_ok q s ->
+  scan_doctype q inB (s ++ q :: r) = (rr <- scan_doctype 0 inB r ;; Some (len s + 1 + fst rr, snd rr)).
 Proof.
-  intros Hs. induction Hs as [|c s (Hc1 & Hc2) Hs IH]; cbn [app].
-  - rewrite scan_doctype_step. change (34 =? 34) with true. cbv iota. cbn [negb].
-    destruct (scan_doctype false inB r) as [[n f]|]; cbn [option_bind fst snd]; [|reflexivity].
+  intros Hq Hs. assert (Eq : (q =? 0) = false) by lia.
+  induction Hs as [|c s (Hc1 & Hc2) Hs IH]; cbn [app].
+  - rewrite scan_doctype_step. rewrite Z.eqb_refl, Eq. cbn [negb andb].
+    destruct (scan_doctype 0 inB r) as [[n f]|]; cbn [option_bind fst snd]; [|reflexivity].
     change (len (@nil Z)) with 0. do 2 f_equal.
-  - rewrite scan_doctype_step. destruct (Z.eqb_spec c 34); [congruence|]. cbn [negb].
-    rewrite !andb_false_r. cbn [andb]. destruct (Z.eqb_spec c 0); [congruence|].
+  - rewrite scan_doctype_step. rewrite Eq. cbn [negb]. rewrite !andb_false_r. cbn [andb].
+    destruct (Z.eqb_spec c q); [congruence|]. destruct (Z.eqb_spec c 0); [congruence|]. cbn [andb].
     rewrite IH. rewrite bind_shift. rewrite len_cons.
-    destruct (scan_doctype false inB r) as [[m f]|]; cbn [option_bind fst snd]; [|reflexivity].
+    destruct (scan_doctype 0 inB r) as [[m f]|]; cbn [option_bind fst snd]; [|reflexivity].
     do 2 f_equal; lia.
 Qed.
 
-Lemma dt_skip_str inB s : str_ok s -> dt_skip inB ([34] ++ s ++ [34]).
+Lemma dt_skip_lit q inB s : q = 34 \/ q = 39 -> lit_ok q s -> dt_skip inB ([q] ++ s ++ [q]).
 Proof.
-  intros Hs r. cbn [app]. rewrite scan_doctype_step. change (34 =? 34) with true. cbv iota. cbn [negb].
-  rewrite <- app_assoc. cbn [app]. rewrite scan_dt_str by exact Hs. rewrite bind_shift.
-  rewrite len_cons, len_app. change (len [34]) with 1.
-  destruct (scan_doctype false inB r) as [[m f]|]; cbn [option_bind fst snd]; [|reflexivity].
+  intros Hq Hs r. cbn [app]. rewrite scan_doctype_step. change (0 =? 0) with true. cbn [negb].
+  rewrite andb_false_r. replace ((q =? 34) || (q =? 39)) with true by lia. cbn [andb].
+  rewrite <- app_assoc. cbn [app]. rewrite scan_dt_lit by (try assumption; lia). rewrite bind_shift.
+  rewrite len_cons, len_app. change (len [q]) with 1.
+  destruct (scan_doctype 0 inB r) as [[m f]|]; cbn [option_bind fst snd]; [|reflexivity].
   do 2 f_equal; lia.
 Qed.
 
-Lemma dt_skip_char c : c <> 34 -> c <> 91 -> c <> 93 -> c <> 62 -> c <> 0 -> dt_skip false [c].
+Lemma dt_skip_char c : c <> 34 -> c <> 39 -> c <> 91 -> c <> 93 -> c <> 62 -> c <> 0 -> dt_skip false [c].
 Proof.
-  intros H1 H2 H3 H4 H5 r. cbn [app]. rewrite scan_doctype_step.
-  destruct (Z.eqb_spec c 34); [congruence|]. destruct (Z.eqb_spec c 91); [congruence|].
+  intros H1 H1' H2 H3 H4 H5 r. cbn [app]. rewrite scan_doctype_step. change (0 =? 0) with true. cbn [negb].
+  rewrite andb_false_r.
+  destruct (Z.eqb_spec c 34); [congruence|]. destruct (Z.eqb_spec c 39); [congruence|].
+  destruct (Z.eqb_spec c 91); [congruence|].
   destruct (Z.eqb_spec c 93); [congruence|]. destruct (Z.eqb_spec c 62); [congruence|].
   destruct (Z.eqb_spec c 0); [congruence|]. cbn [orb andb negb].
-  destruct (scan_doctype false false r) as [[m f]|]; cbn [option_bind fst snd]; reflexivity.
+  destruct (scan_doctype 0 false r) as [[m f]|]; cbn [option_bind fst snd]; reflexivity.
 Qed.
 
-Lemma dt_skip_ichar c : c <> 34 -> c <> 93 -> c <> 0 -> dt_skip true [c].
+Lemma dt_skip_ichar c : c <> 34 -> c <> 39 -> c <> 93 -> c <> 0 -> dt_skip true [c].
 Proof.
-  intros H1 H3 H5 r. cbn [app]. rewrite scan_doctype_step.
-  destruct (Z.eqb_spec c 34); [congruence|]. destruct (Z.eqb_spec c 93); [congruence|].
+  intros H1 H1' H3 H5 r. cbn [app]. rewrite scan_doctype_step. change (0 =? 0) with true. cbn [negb].
+  rewrite andb_false_r.
+  destruct (Z.eqb_spec c 34); [congruence|]. destruct (Z.eqb_spec c 39); [congruence|].
+  destruct (Z.eqb_spec c 93); [congruence|].
   destruct (Z.eqb_spec c 0); [congruence|]. rewrite !andb_false_r. cbn [negb andb orb].
   destruct (Z.eqb_spec c 91) as [->|]; cbn [orb andb];
-    destruct (scan_doctype false true r) as [[m f]|]; cbn [option_bind fst snd]; reflexivity.
+    destruct (scan_doctype 0 true r) as [[m f]|]; cbn [option_bind fst snd]; reflexivity.
 Qed.
 
 Lemma dt_skip_dinner p : dinner_ok p -> dt_skip true (render_dinner p).
 Proof.
-  destruct p as [c|s]; cbn [dinner_ok render_dinner].
-  - intros (H1 & H2 & H3). apply dt_skip_ichar; assumption.
-  - apply dt_skip_str.
+  destruct p as [c|s|s]; cbn [dinner_ok render_dinner].
+  - intros (H1 & H2 & H3 & H4). apply dt_skip_ichar; assumption.
+  - apply dt_skip_lit. auto.
+  - apply dt_skip_lit. auto.
 Qed.
 
 Lemma dt_skip_sub inner : Forall dinner_ok inner -> dt_skip false ([91] ++ concat (map render_dinner inner) ++ [93]).
 Proof.
-  intros H r. cbn [app]. rewrite scan_doctype_step. change (91 =? 34) with false. change (91 =? 91) with true.
+  intros H r. cbn [app]. rewrite scan_doctype_step. change (0 =? 0) with true.
+  change (91 =? 0) with false. change (91 =? 34) with false. change (91 =? 39) with false. change (91 =? 91) with true.
   cbn [orb andb negb]. cbv iota. rewrite <- app_assoc.
   assert (Hs : dt_skip true (concat (map render_dinner inner))).
   { apply dt_skip_concat. eapply Forall_impl; [|exact H]. intros p. apply dt_skip_dinner. }
-  rewrite Hs. cbn [app]. rewrite scan_doctype_step. change (93 =? 34) with false. change (93 =? 93) with true.
+  rewrite Hs. cbn [app]. rewrite scan_doctype_step. change (0 =? 0) with true.
+  change (93 =? 0) with false. change (93 =? 34) with false. change (93 =? 39) with false. change (93 =? 93) with true.
   change (93 =? 91) with false. cbn [orb andb negb]. cbv iota.
   rewrite !bind_shift. rewrite len_cons, len_app. change (len [93]) with 1.
-  destruct (scan_doctype false false r) as [[m f]|]; cbn [option_bind fst snd]; [|reflexivity].
+  destruct (scan_doctype 0 false r) as [[m f]|]; cbn [option_bind fst snd]; [|reflexivity].
   do 2 f_equal; lia.
 Qed.
 
 Lemma dt_skip_dpiece p : dpiece_ok p -> dt_skip false (render_dpiece p).
 Proof.
-  destruct p as [c|s|inner]; cbn [dpiece_ok render_dpiece].
-  - intros (H1 & H2 & H3 & H4 & H5). apply dt_skip_char; assumption.
-  - apply dt_skip_str.
+  destruct p as [c|s|s|inner]; cbn [dpiece_ok render_dpiece].
+  - intros (H1 & H2 & H3 & H4 & H5 & H6). apply dt_skip_char; assumption.
+  - apply dt_skip_lit. auto.
+  - apply dt_skip_lit. auto.
   - apply dt_skip_sub.
 Qed.
 
 Lemma scan_doctype_dt ps r : Forall dpiece_ok ps ->
-  scan_doctype false false (render_dt ps ++ 62 :: r) = Some (len (render_dt ps), true).
+  scan_doctype 0 false (render_dt ps ++ 62 :: r) = Some (len (render_dt ps), true).
 Proof.
   intros H. assert (Hs : dt_skip false (render_dt ps)).
   { apply dt_skip_concat. eapply Forall_impl; [|exact H]. intros p. apply dt_skip_dpiece. }
-  rewrite Hs. rewrite scan_doctype_step. change (62 =? 34) with false. change (62 =? 91) with false.
+  rewrite Hs. rewrite scan_doctype_step. change (0 =? 0) with true. change (62 =? 0) with false.
+  change (62 =? 34) with false. change (62 =? 39) with false. change (62 =? 91) with false.
   change (62 =? 93) with false. change (62 =? 62) with true. cbn [orb andb negb option_bind fst snd].
   do 2 f_equal; lia.
 Qed.
@@ -905,7 +923,7 @@ Ltac ok_solve :=
          | |- attr_ok _ => unfold attr_ok; cbn [a_lead a_name a_ws1 a_ws2 a_q a_val]
          | |- is_name _ _ => unfold is_name
          | |- all_ws _ => unfold all_ws
-         | |- str_ok _ => unfold str_ok
+         | |- lit_ok _ _ => unfold lit_ok
          end.
 
 Example ex_items_ok : doc_ok ex_items.
@@ -934,15 +952,38 @@ Example ex_items_tokens : map (fun t => fst (fst (fst t))) (expect_doc ex_items)
 Proof. vm_compute. reflexivity. Qed.
 
 (* ---- constructs of XML 1.0 on which the lexer's rules are simpler than the grammar's: witnesses ---------------- *)
-(* <!DOCTYPE a SYSTEM 'x>y'><a/> : the DOCTYPE token ends at the '>' inside the single-quoted literal *)
+(* <!DOCTYPE a SYSTEM 'x>y'><a/> : before the fix b994372 of /repo the DOCTYPE token ended at the '>' inside
+   the single-quoted literal; now the document is in the grammar *)
 Definition ex_doctype_squote : list Z :=
   [60; 33; 68; 79; 67; 84; 89; 80; 69; 32; 97; 32; 83; 89; 83; 84; 69; 77; 32; 39; 120; 62; 121; 39; 62; 60; 97; 47; 62].
 
-Theorem xml_doctype_single_quote_refuted_proof :
-  exists d, d = ex_doctype_squote /\
-    option_map (map (fun r => (fst (fst r), snd (fst r)))) (run 3 (xml_init d)) =
-    Some [(TDoctype, Some (0, 22)); (TText, Some (22, 25)); (TStartTag, Some (25, 27))].
-Proof. exists ex_doctype_squote. split; [reflexivity|]. vm_compute. reflexivity. Qed.
+Definition ex_squote_items : list item :=
+  [ IDoctype (map DChar [32; 97; 32; 83; 89; 83; 84; 69; 77; 32] ++ [DStrS [120; 62; 121]]); IStart [97] [] [] true ].
+
+Example ex_squote_items_ok : doc_ok ex_squote_items.
+Proof.
+  split.
+  - unfold ex_squote_items. repeat apply Forall_cons; try apply Forall_nil; cbn [item_ok]; ok_solve.
+  - cbn. intuition discriminate.
+Qed.
+
+Example ex_squote_items_bytes : render_doc ex_squote_items = ex_doctype_squote.
+Proof. vm_compute. reflexivity. Qed.
+
+(* <!DOCTYPE a PUBLIC 'p"[' "it's" [<!ENTITY e ']">['>]><a/> : both quote styles, each containing the other
+   quote, brackets and '>' *)
+Definition ex_squote_items2 : list item :=
+  [ IDoctype (map DChar [32; 97; 32; 80; 85; 66; 76; 73; 67; 32] ++ [DStrS [112; 34; 91]] ++ [DChar 32] ++
+              [DStr [105; 116; 39; 115]] ++ [DChar 32] ++
+              [DSub (map DIChar [60; 33; 69; 78; 84; 73; 84; 89; 32; 101; 32] ++ [DIStrS [93; 34; 62; 91]] ++ [DIChar 62])]);
+    IStart [97] [] [] true ].
+
+Example ex_squote_items2_ok : doc_ok ex_squote_items2.
+Proof.
+  split.
+  - unfold ex_squote_items2. repeat apply Forall_cons; try apply Forall_nil; cbn [item_ok]; ok_solve.
+  - cbn. intuition discriminate.
+Qed.
 
 (* <?p a>b?><a/> : a '>' in the content of a processing instruction closes it as a start tag would be *)
 Definition ex_pi_gt : list Z := [60; 63; 112; 32; 97; 62; 98; 63; 62; 60; 97; 47; 62].
